@@ -65,3 +65,22 @@ pub const KAPPA_WELL: f64 = 1e6;
 pub fn lowdim_area_unreliable(c: &Case) -> bool {
     c.dim < 3 && U * c.scale_l() > 1e-6
 }
+
+/// Distance of two positions for the purpose of "equal up to rounding": measured in the active
+/// subspace. Along the unused axes of a 1D / 2D tessellation the library works in a slab of unit
+/// thickness, so rounding there is of order u (absolute), unrelated to the scale L of the active
+/// coordinates (which may be 1e-18 for a tiny box); the unused components are only required to
+/// be small in absolute terms.
+pub fn active_distance(c: &Case, a: glam::DVec3, b: glam::DVec3) -> f64 {
+    let d = c.d();
+    let mut q = 0.;
+    for k in 0..d {
+        q += (a[k] - b[k]) * (a[k] - b[k]);
+    }
+    for k in d..3 {
+        if (a[k] - b[k]).abs() > 1e-9 {
+            return f64::INFINITY;
+        }
+    }
+    q.sqrt()
+}
